@@ -691,7 +691,7 @@ def _exhaustive(maxlen_lb, maxlen_km):
 
 def cases(rng, tier, n=None):
     thorough = tier == 'thorough'
-    mult = 12 if thorough else 1
+    mult = 30 if thorough else 2
     maxlen = 100
     out = []
     for _ in range(220 * mult):          # lookback over the melody one-hot
